@@ -287,6 +287,8 @@ LayoutCompat(a, b) ==
                 /\ a.s = b.s /\ a.lay = b.lay
            [] a.k = "vector" -> a.lay # "Unknown" /\ b.lay # "Unknown" /\ a.lay = b.lay /\ LayoutCompat(a.ts[1], b.ts[1])
            [] a.k = "array" -> a.n = b.n /\ LayoutCompat(a.ts[1], b.ts[1])
+           [] a.k = "zero" -> TRUE
+           [] a.k \in {"boxed", "ref", "slice"} -> LayoutCompat(a.ts[1], b.ts[1])
            [] OTHER -> FALSE
 
 RECURSIVE SameLayout(_, _)
@@ -309,5 +311,8 @@ SameLayout(a, b) ==
          [] a.k = "prim" -> a.s = b.s /\ (a.s = "string" => a.lay \notin {"", "Unknown"} /\ a.lay = b.lay)
          [] a.k = "vector" -> a.lay \notin {"", "Unknown"} /\ a.lay = b.lay /\ SameLayout(a.ts[1], b.ts[1])
          [] a.k = "array" -> a.n = b.n /\ SameLayout(a.ts[1], b.ts[1])
+         [] a.k = "zero" -> TRUE                                  \* no bytes: nothing to lay out
+         \* thin / fat pointers are passed as pointer (and length); what must agree is the pointee
+         [] a.k \in {"boxed", "ref", "slice"} -> SameLayout(a.ts[1], b.ts[1])
          [] OTHER -> FALSE
 =============================================================================
